@@ -253,13 +253,46 @@ def table_and_column(sig, model, field):
     return m.table_name, col
 
 
-def general_case(rng, seed):
-    spec = sigs.gen_spec(rng, 'vapp', with_meta=False)
-    models = dbrig.build_models(spec)
-    sig0 = dbrig.sig_from_models(models)
-    muts, final = sigs.gen_sequence(rng, sig0, 'vapp', rng.randint(1, 4),
-                                    kinds=['AddField'] * 3 + ['ChangeField'] * 4 + ['DeleteField'] * 2 +
-                                    ['RenameField'] * 3 + ['RenameModel'] * 2)
+def family():
+    """deterministic cases: every kind of attribute change that rebuilds the table, with and without an
+    initial value on the mutation, on columns that hold NULLs, empty strings and ordinary values; callable
+    initial values (raw SQL to embed) next to plain ones in one merged rebuild"""
+    def fld(name, t, **attrs):
+        return {'name': name, 'type': t, 'attrs': attrs, 'related': None}
+    spec = {'apps': [{'id': 'vapp', 'models': [
+        {'name': 'Alpha', 'table': 'vapp_alpha', 'unique_together': [], 'index_together': [], 'indexes': [],
+         'constraints': [], 'fields': [
+             fld('id', 'AutoField', primary_key=True), fld('note', 'CharField', max_length=20, null=True),
+             fld('code', 'CharField', max_length=10, null=True), fld('qty', 'IntegerField', null=True),
+             fld('score', 'IntegerField', null=True)]}]}]}
+    cf = lambda field, initial, *attrs: {'t': 'ChangeField', 'model': 'Alpha', 'field': field, 'ftype': None,
+                                         'initial': initial, 'attrs': [list(a) for a in attrs]}
+    add = lambda field, initial: {'t': 'AddField', 'model': 'Alpha', 'field': field, 'ftype': 'IntegerField',
+                                  'initial': initial, 'attrs': []}
+    cases = [
+        [cf('note', '"n/a"', ('max_length', '50'))],
+        [cf('code', '"NONE"', ('unique', 'true'))],
+        [cf('qty', '5', ('db_index', 'true'))],
+        [cf('note', '"n/a"', ('max_length', '50')), cf('qty', '0', ('null', 'false'))],
+        [add('extra', '7'), cf('note', None, ('max_length', '30')), cf('score', '-1', ('null', 'false'))],
+        [cf('qty', '0', ('null', 'false')), cf('score', '-1', ('null', 'false')), add('extra', '7')],
+    ]
+    return [(spec, c) for c in cases]
+
+
+def general_case(rng, seed, fixed=None):
+    if fixed is not None:
+        spec, muts = fixed
+        models = dbrig.build_models(spec)
+        sig0 = dbrig.sig_from_models(models)
+        final = True
+    else:
+        spec = sigs.gen_spec(rng, 'vapp', with_meta=False)
+        models = dbrig.build_models(spec)
+        sig0 = dbrig.sig_from_models(models)
+        muts, final = sigs.gen_sequence(rng, sig0, 'vapp', rng.randint(1, 4),
+                                        kinds=['AddField'] * 3 + ['ChangeField'] * 4 + ['DeleteField'] * 2 +
+                                        ['RenameField'] * 3 + ['RenameModel'] * 2)
     if final is None or not muts:
         return None
     muts = [m for m in muts if not (m['t'] == 'ChangeField' and any(a == 'db_table' for a, _ in m['attrs']))]
@@ -269,7 +302,7 @@ def general_case(rng, seed):
     for mode in ('stepwise', 'batched'):
         dbrig.reset_db('default')
         dbrig.create_tables(models, 'default')
-        dbrig.insert_rows(models, random.Random(seed))
+        dbrig.insert_rows(models, random.Random(seed), n_rows=(6 if fixed is not None else None))
         before = dbrig.abs_rows()
         try:
             dbrig.evolve(sig0, 'vapp', [sigs.real_mutation(m) for m in muts], one_at_a_time=(mode == 'stepwise'))
@@ -395,11 +428,12 @@ def run(ctx):
     # (2)
     n2 = 150 if quick else 4000
     done = 0
+    fam = family()
     for i in range(n2 * 3):
         if done >= n2 or ctx.time_left() < 20:
             break
         seed = ctx.seed * 7 + i
-        rep = general_case(ctx.rng, seed)
+        rep = general_case(ctx.rng, seed, fixed=fam.pop(0) if fam else None)
         if rep is None:
             continue
         if 'skip' in rep:
